@@ -13,6 +13,21 @@ from vlib import parse_sexp, unparse, field, fields, decode_s, hx, sha
 
 REGISTRY = {}
 
+# statements kept visible at full strength but not proved (see DESIGN.md); the correspondence
+# check samples them, it does not settle them
+OPEN = {
+    "C01": ["C01_parse_sem: forall sty a, wf_media a -> parse_media (render_media sty a) = Ok (complete (sem_media a)) -- proved in layers (tokenizer, unquote, dispatch, assembly, integers, C06-C09); missing: per-tag interpretation lemmas and the float text conversions of EXTINF / DATERANGE durations"],
+    "C02": ["C02_parse_sem: forall sty a, wf_master a -> parse_master (render_master sty a) = Ok (sem_master a) -- proved in layers (tokenizer, dispatch, source order, enums, integers); missing: per-tag interpretation lemmas, UFloat frame rates"],
+    "C03": ["C03_roundtrip: forall p from parse, parse_media (print_media p) = Ok p' with obs p' = obs p and print_media p' = print_media p -- proved: key-event duality (sets of keys per segment); missing: text of each tag read back (floats), byte-range/number/IV idempotence of build on printed text; FALSE as stated for key order (D20) and map keys (D9-K1): known findings"],
+    "C04": ["C04_roundtrip: forall p from parse, parse_master (print_master p) = Ok p -- proved at item level; missing: text of each tag read back (print_fixed3 frame rates, composite tags)"],
+    "C05": ["C05_cost: cost_parse s <= c1*|s| + c2*|items s|*K s -- no cost model was built; time scaling is measured only (thorough tier)"],
+    "C12": ["C12_restyle: forall sty1 sty2 a, wf a -> parse (render sty1 a) = parse (render sty2 a) -- corollary of the open C01/C02 statements; attribute order proved for 3 tags + generic theorem, not instantiated for all 12 attribute-list tags; header-tag and segment-tag order permutations not proved (sampled)"],
+    "C14": ["C14_T for EXT-X-KEY / STREAM-INF as an iff over all attribute lists: only the invariant direction is proved for keys; stream tags are by typing (BANDWIDTH / URI are required fields of the result)"],
+    "C16": ["C16_slide: sliding the window keeps number/URI/range/keys/IV -- not proved (needs the restatement function and C06-C08 composed); sampled by the correspondence check"],
+    "C18": ["C18_float / C18_ufloat / C18_duration / C18_tags: parse (print v) = v for every finite f32, every duration below 10^6 s and every tag value -- rests on the modelled std float conversions; validated by correspondence and sweep, not proved"],
+    "C20": ["C20_agree: for content without explicit numbers, builder_run (calls a order) = parse_media (render canon a) up to obs -- only the shared build() and the setter algebra are proved; agreement of the two paths is sampled"],
+}
+
 
 def register(cls):
     REGISTRY[cls.pid] = cls
@@ -42,7 +57,7 @@ class Prop:
         return ["corr:%s:model=impl on the property's projection" % self.pid]
 
     def open_statements(self):
-        return []
+        return OPEN.get(self.pid, [])
 
     def assumptions(self):
         return ["the extracted model agrees with the implementation outside the explored inputs (differential testing, not proof)",
@@ -271,7 +286,13 @@ def gen_key_history(g, nfmt=4, length=None, with_maps=True, mseq=None):
     mp = None
     for _ in range(n):
         ev = g.r.randrange(10)
-        if ev < 4:
+        if ev < 1 and (pending or a["segs"]):
+            # restate a key that is currently in effect, unchanged
+            hist_now = [k for s in a["segs"] for k in s["keys_before"]] + pending
+            eff = [k for k in gen.keys_in_effect(hist_now) if k is not None]
+            if eff:
+                pending.append(dict(g.pick(eff)))
+        elif ev < 4:
             pending.append(gen.gen_key(g, fmts))
         elif ev < 5:
             pending.append(None)
@@ -323,8 +344,25 @@ def seg_key_view(segnode):
     return (unparse(field(segnode, "keys")), unparse(field(segnode, "dlen")), unparse(field(segnode, "dfirst")), mk_)
 
 
+def sort_keys_in_dump(d):
+    """canonical form of a MEDIA dump in which every (keys …) list is sorted"""
+    def canon(x):
+        if isinstance(x, list):
+            y = [canon(e) for e in x]
+            if y and y[0] == "keys":
+                return ["keys"] + sorted(y[1:], key=unparse)
+            if y and y[0] == "dfirst":
+                return ["dfirst"]
+            return y
+        return x
+    return unparse(canon(d))
+
+
 def classify_roundtrip_known(node):
-    """known classes of C03 on a parsed (mres …): D9-K1 map under different keys than its segment"""
+    """known classes of C03 on a parsed (mres …): D20 key order only; D9-K1 map under different keys than its segment"""
+    re_ = field(node, "re")
+    if re_ is not None and re_[1] == "ok" and sort_keys_in_dump(re_[2]) == sort_keys_in_dump(first_dump(node)):
+        return "D20"
     segs = media_segs(first_dump(node))
     for s in segs:
         mp = field(s, "map")
